@@ -20,6 +20,38 @@ CLAIMED = {
             "DESIGN.md section 4, C08"),
 }
 
+SCHED = ("bounded symbolic execution of the real Composition.connect/run (symx proxies + z3) on a catalogue of "
+         "topologies with symbolic starts, steps, delays and end time; counterexamples replayed concretely")
+CLAIMED.update({
+    "C01": (SCHED,
+            "For each listed topology (DAGs with scaling/interpolation/integration/delay adapters, pull-based components "
+            "in between, two-input consumers, delay-resolved rings) and every integer-microsecond choice of start offsets, "
+            "steps, delays and end time, all feasible paths of the real scheduler with at most the stated number of updates "
+            "are enumerated; on each, z3 discharges 'source already published up to the time that will be requested' at "
+            "every update and 'request inside the retained range' at every pull, and no path ends in a time/no-data error. "
+            "Bounded: topologies, update count; nothing is claimed beyond them.",
+            "DESIGN.md section 4, C01"),
+    "C02": (SCHED,
+            "Same exploration; obligations: the component picked at each scheduling step is not ahead of any other, every "
+            "updated component is reached from it along links that still lack data (independent specification walk with "
+            "accumulated delay shifts), and the time that actually reaches the source output equals the shifted time the "
+            "schedule was computed for (chains of 1-3 delay adapters, pull-based components in between).",
+            "DESIGN.md section 4, C02"),
+    "C03": (SCHED,
+            "Same exploration; obligations per feasible path: run returns, every time component ends at or beyond the "
+            "symbolic end time, update times strictly increase, no update once all reached the end (for end after start), "
+            "life-cycle call word and final status per component, every adapter finalized exactly once. Termination only "
+            "within the update bound (paths that need more updates are cut and counted).",
+            "DESIGN.md section 4, C03"),
+    "C04": (SCHED,
+            "Rings of 2-5 components (chord, tail, pull-based member): without delay every feasible path ends in "
+            "FinamCircularCouplingError (equal starts) or in that error / a clean early finish (symbolic offsets), never in "
+            "another exception or deep recursion; with DelayFixed adapters constrained by sum(delays) >= sum(largest steps) "
+            "(one adapter, two/three chained, split over links) every feasible path completes with the C01 obligations "
+            "discharged.",
+            "DESIGN.md section 4, C04"),
+})
+
 PENDING = {}
 
 NOT_APPLICABLE = {
